@@ -272,7 +272,7 @@ func CoqBytes(b []byte) string {
 		}
 		s += p
 	}
-	return s + ")"
+	return s + ")%list"
 }
 
 func coqOptBytes(hexs string, isNil bool) string {
@@ -314,7 +314,7 @@ func runs(xs []string) string {
 		}
 		s += p
 	}
-	return s + ")"
+	return s + ")%list"
 }
 
 func CoqIn(in txgen.InSpec) string {
